@@ -23,6 +23,11 @@ mod c10 {
     include!(concat!(env!("XOOLIVE_RS1090_VERIF_DIR"), "/c10.rs"));
 }
 
+#[allow(dead_code)]
+mod c09 {
+    include!(concat!(env!("XOOLIVE_RS1090_VERIF_DIR"), "/c09.rs"));
+}
+
 fn dispatch<S: batch::Scenario>(sc: &S, cmd: &str, env: &batch::Env) -> i32 {
     match cmd {
         "check" => batch::run_check(sc, env).exit_code,
@@ -54,6 +59,7 @@ fn verif_entry() {
     let prop = std::env::var("VERIF_PROP").unwrap_or_default();
     let env = batch::Env::from_env();
     let code = match prop.as_str() {
+        "C09" => dispatch(&c09::C09, &cmd, &env),
         "C10" => dispatch(&c10::C10, &cmd, &env),
         _ => {
             println!("HARNESS-ERROR: unknown property '{}'", prop);
